@@ -180,7 +180,7 @@ func genDirTags(rt *rapid.T, tagPool []string) dirCase {
 		d.Files = append(d.Files, f)
 	}
 	for i := 0; i < rapid.IntRange(0, 3).Draw(rt, "njs"); i++ {
-		nm := rapid.SampledFrom([]string{"lib.inc.js", "_hidden.inc.js", ".dot.inc.js", "other_linux.inc.js", "z.inc.js", "plain.js", "x_wasm.inc.js"}).Draw(rt, "js")
+		nm := rapid.SampledFrom([]string{"lib.inc.js", "_hidden.inc.js", ".dot.inc.js", "other_linux.inc.js", "z.inc.js", "plain.js", "x_wasm.inc.js", "lib.v2.inc.js", "vendor-1.2.min.inc.js", "a.b.c.inc.js", "inc.js.txt", "notinc.jsx"}).Draw(rt, "js")
 		dup := false
 		for _, e := range d.JSFiles {
 			if e == nm {
